@@ -23,23 +23,20 @@ where
     // be in the set into new_ws, implicitly dropping any tasks that are no longer in the
     // working set.
     for elt in &old_ws[1..] {
+        let mut keep = false;
         if let Some(uuid) = elt {
             if let Some(task) = txn.get_task(*uuid).await? {
-                if in_working_set(&task) {
-                    // The existing working-set item is still in the working set -- no change.
-                    new_ws.push(Some(*uuid));
-                    seen.insert(*uuid);
-                } else {
-                    // The item should not be present. If we are not renumbering, then insert a
-                    // blank working-set item here
-                    if !renumber {
-                        new_ws.push(None);
-                    }
-                }
-                continue;
+                keep = in_working_set(&task);
             }
-        } else {
-            // This item was already None.
+        }
+        if keep {
+            // The existing working-set item is still in the working set -- no change.
+            new_ws.push(*elt);
+            seen.extend(*elt);
+        } else if !renumber {
+            // The item should not be present, its task no longer exists, or it was already
+            // None. If we are not renumbering, then insert a blank working-set item here so
+            // that later items keep their index; when renumbering, gaps are dropped.
             new_ws.push(None);
         }
     }
